@@ -925,4 +925,4 @@ mod tests {
 
 #[cfg(kani)]
 #[path = "/verif/harness/teos/gatekeeper.rs"]
-mod verif_harness;
+pub(crate) mod verif_harness;
